@@ -126,8 +126,20 @@ def run(ctx):
         ctx.violated(r2, fpf, "fit(..., **kwargs)", "fit options are not forwarded by fixed_poi_fit", node=fc[0] if fc else fpf.node)
 
     # ------------------------------------------------------------ R3: shim
-    b = [Poly.atom(f"b{k}") for k in range(3)]
-    for do_stitch in (True, False):
+    b = [Poly.atom(f"b{k}") for k in range(4)]
+    i4 = [Poly.atom(f"i{k}") for k in range(4)]
+    # module-level containers of common.py are shared between calls: interpret shim twice over the same module state
+    # (second call: same indices, different fixed values) so that anything remembered from the first call shows up
+    module_state = {}
+    the_pdf = Obj("pdf", {"config": Obj("config", {"npars": Poly.const(4)})})
+    for st_ in repo.module(COM).tree.body:
+        if isinstance(st_, ast.Assign) and len(st_.targets) == 1 and isinstance(st_.targets[0], ast.Name):
+            v_ = st_.value
+            if isinstance(v_, ast.Dict) and not v_.keys or (isinstance(v_, ast.Call) and not v_.args and (A.call_attr(v_) or "").lower().endswith(("dict", "dictionary"))):
+                module_state[st_.targets[0].id] = {}
+            elif isinstance(v_, (ast.List, ast.Set)) and not v_.elts:
+                module_state[st_.targets[0].id] = []
+    for do_stitch, fv in ((True, ("v0", "v2")), (True, ("w0", "w2")), (False, ("v0", "v2")), (False, ("w0", "w2"))):
         rec3 = {}
 
         def wrap(args, kw):
@@ -139,16 +151,16 @@ def run(ctx):
             "_TensorViewer": lambda a, k: (rec3.__setitem__("tv", a) or Obj("TV")),
             "_make_stitch_pars": lambda a, k: (rec3.__setitem__("mk", (a, k)) or Obj("STITCH")),
         }
-        cfg = Obj("config", {"npars": Poly.const(3)})
-        env = {"objective": Obj("objective"), "data": Obj("data"), "pdf": Obj("pdf", {"config": cfg}), "init_pars": list(i), "par_bounds": list(b), "fixed_vals": [(Poly.const(1), Poly.atom("v1"))], "do_grad": Obj("DO_GRAD"), "do_stitch": do_stitch}
-        site = f"{COM}::shim[do_stitch={do_stitch}]"
+        env = {"objective": Obj("objective"), "data": Obj("data"), "pdf": the_pdf, "init_pars": list(i4), "par_bounds": list(b), "fixed_vals": [(Poly.const(0), Poly.atom(fv[0])), (Poly.const(2), Poly.atom(fv[1]))], "do_grad": Obj("DO_GRAD"), "do_stitch": do_stitch}
+        env.update(module_state)
+        site = f"{COM}::shim[do_stitch={do_stitch}, fixed values {fv}]"
         try:
             out = Interp(env, {}, {}, externals=ext).run(A.strip_docstring(shim.node.body))
             mkw, st = out
             x0 = [str(to_poly(x)) for x in mkw["x0"]]
             bd = [str(to_poly(x)) for x in mkw["bounds"]]
             fvs = [(int(to_poly(a).const_value()), str(to_poly(c))) for a, c in mkw["fixed_vals"]]
-            want = (["i0", "i2"], ["b0", "b2"], []) if do_stitch else (["i0", "i1", "i2"], ["b0", "b1", "b2"], [(1, "v1")])
+            want = (["i1", "i3"], ["b1", "b3"], []) if do_stitch else (["i0", "i1", "i2", "i3"], ["b0", "b1", "b2", "b3"], [(0, fv[0]), (2, fv[1])])
             if (x0, bd, fvs) == want:
                 ctx.holds(r3, site, f"x0={x0} bounds={bd} fixed_vals={fvs}")
             else:
@@ -160,7 +172,7 @@ def run(ctx):
             wa, wk = rec3["wrap"]
             jp = wk.get("jit_pieces", {})
             okw = getattr(wa[0], "name", "") == "objective" and getattr(wa[2], "name", "") == "pdf" and getattr(wa[3], "name", "") == ("STITCH") and getattr(wk.get("do_grad"), "name", "") == "DO_GRAD"
-            okj = isinstance(jp, dict) and [int(to_poly(x).const_value()) for x in jp.get("fixed_idx", [])] == [1] and [int(to_poly(x).const_value()) for x in jp.get("variable_idx", [])] == [0, 2] and [str(to_poly(x)) for x in jp.get("fixed_values", [])] == ["v1"] and jp.get("do_stitch") is do_stitch
+            okj = isinstance(jp, dict) and [int(to_poly(x).const_value()) for x in jp.get("fixed_idx", [])] == [0, 2] and [int(to_poly(x).const_value()) for x in jp.get("variable_idx", [])] == [1, 3] and [str(to_poly(x)) for x in jp.get("fixed_values", [])] == list(fv) and jp.get("do_stitch") is do_stitch
             if okw and okj:
                 ctx.holds(r3, site, "wrap_objective(objective, data, pdf, stitch_pars, do_grad, jit_pieces{fixed_idx, variable_idx, fixed_values, do_stitch})")
             else:
@@ -168,12 +180,12 @@ def run(ctx):
             if do_stitch:
                 tv = rec3.get("tv")
                 mka, mkk = rec3.get("mk", ((), {}))
-                ok_tv = tv and [[int(to_poly(x).const_value()) for x in lst] for lst in tv[0]] == [[1], [0, 2]]
-                ok_mk = len(mka) == 2 and getattr(mka[0], "name", "") == "TV" and [str(to_poly(x)) for x in mka[1]] == ["v1"]
+                ok_tv = tv and [[int(to_poly(x).const_value()) for x in lst] for lst in tv[0]] == [[0, 2], [1, 3]]
+                ok_mk = len(mka) == 2 and getattr(mka[0], "name", "") == "TV" and [str(to_poly(x)) for x in mka[1]] == list(fv)
                 if ok_tv and ok_mk:
                     ctx.holds(r4, site, "viewer [fixed_idx, variable_idx]; stitcher gets (viewer, fixed values)")
                 else:
-                    ctx.violated(r4, shim, "stitcher construction", "the stitcher is not built from the viewer [fixed_idx, variable_idx] and the fixed values", found=f"viewer={tv}, make_stitch_pars args={mka}")
+                    ctx.violated(r4, shim, "stitcher construction", "the stitcher is not built in this call from the viewer [fixed_idx, variable_idx] and this call's fixed values (a stitcher remembered from an earlier fit pins the parameters to that fit's values)", found=f"viewer={tv}, make_stitch_pars args={mka}")
                 if getattr(st, "name", "") != "STITCH":
                     ctx.violated(r3, shim, "return stitch_pars", "shim does not return the stitcher it gave to the objective", found=str(st))
         except (Undecided, KeyError, ValueError, TypeError) as e:
